@@ -123,12 +123,12 @@ theorem focalPlaneZ_eval (z0 s : Rat) (pl : Nat) : genRat (Gen.focalPlaneZ z0 ((
 its focal plane: the channel does not enter -/
 theorem tiledFramePosition_eval (ds : ImageDs) (tf : TiledFull) {x y : Rat} {z : Option Rat} {ps : List Rat} {sbs : Option Rat}
     (ho : ds.totalOrigin = some (x, y, z)) (hm : ds.shared.measures = some (ps, sbs)) (hr : tf.rows ≠ 0) (hc : tf.cols ≠ 0)
-    (ch pl tr tc : Nat) (hch : ch < tf.channels) (hpl : pl < tf.npl) (htr : tr < tf.ntr) (htc : tc < tf.ntc) :
+    (ha : Gen.tiledAllowedSopClasses.contains tf.source.sopClass = true) (ch pl tr tc : Nat) (hch : ch < tf.channels) (hpl : pl < tf.npl) (htr : tr < tf.ntr) (htc : tc < tf.ntc) :
     tiledFramePosition ds tf (tf.frameNumber ch pl tr tc)
       = (tilePosition tf.rows tf.cols [x, y, z.getD 0 + (pl : Rat) * sbs.getD 1] ds.oriSlide (.seq ps) tc tr).map (·.2.toList) := by
   unfold tiledFramePosition
   rw [ho, hm]
-  simp only [hr, hc, or_self, if_false]
+  simp only [hr, hc, ha, Bool.not_true, Bool.false_eq_true, or_self, if_false]
   have hs : genInt (Gen.tiledFrameStart (tf.frameNumber ch pl tr tc))
       = (((ch * tf.npl + pl) * (tf.ntr * tf.ntc) + (tr * tf.ntc + tc) : Nat) : Int) := by
     simp [genInt, Gen.tiledFrameStart, TiledFull.frameNumber]
@@ -162,6 +162,7 @@ structure TiledSlide (ds : ImageDs) (tf : TiledFull) (P : Plane) (z sbs : Option
   ori : ds.oriSlide = P.oriL
   rows : 0 < tf.rows
   cols : 0 < tf.cols
+  allowed : Gen.tiledAllowedSopClasses.contains tf.source.sopClass = true
   hr : 0 < P.sr
   hc : 0 < P.sc
 
@@ -219,7 +220,7 @@ theorem spatialInfo_tiled_frame {ds : ImageDs} {tf : TiledFull} {P : Plane} {z s
   simp only [h.multiframe, h.tiled, Option.isSome_some, Gen.tiledFullHasNoFrameGroups, Bool.and_self, if_true, hge,
     Bool.false_eq_true, if_false, bind, Except.bind, pure, Except.pure, chainOrder_measures,
     lookupIn_shared ds.shared none (·.measures) _ h.measures]
-  rw [tiledFramePosition_eval ds tf h.origin h.measures (ne_of_gt h.rows) (ne_of_gt h.cols) ch pl tr tc hch hpl htr htc]
+  rw [tiledFramePosition_eval ds tf h.origin h.measures (ne_of_gt h.rows) (ne_of_gt h.cols) h.allowed ch pl tr tc hch hpl htr htc]
   have hpos : [P.pos.x, P.pos.y, z.getD 0 + (pl : Rat) * sbs.getD 1] = (P.lift ((pl : Rat) * sbs.getD 1)).posL := by
     simp [Plane.lift, Plane.posL, h.zpos]
   have hev := pixToRefAffine_eval (P.lift ((pl : Rat) * sbs.getD 1)) h.hr h.hc
@@ -294,7 +295,7 @@ theorem spatialInfo_tiled_out_of_range {ds : ImageDs} {tf : TiledFull} {P : Plan
     lookupIn_shared ds.shared none (·.measures) _ h.measures]
   unfold tiledFramePosition
   rw [h.origin, h.measures]
-  simp only [ne_of_gt h.rows, ne_of_gt h.cols, or_self, if_false]
+  simp only [ne_of_gt h.rows, ne_of_gt h.cols, h.allowed, Bool.not_true, Bool.false_eq_true, or_self, if_false]
   have hs : genInt (Gen.tiledFrameStart f) = f - 1 := by simp [genInt, Gen.tiledFrameStart]
   have he : genInt (Gen.tiledFrameStop f) = f := by simp [genInt, Gen.tiledFrameStop]
   rw [hs, he]
@@ -511,5 +512,20 @@ theorem imageCoordinateSystem_total (d : CoordInput) (he : d.emptyAtFirstItem = 
   simp only [Gen.patientGroupSequences, patientFromGroups, he, List.contains_nil, Bool.false_eq_true, if_false]
   repeat' split
   all_goals exact ⟨_, rfl⟩
+
+
+/-! ## number of channels -/
+
+/-- **the number of channels of a TILED_FULL image, as the library derives it** (regenerated decision): a LABELMAP segmentation has one,
+any other segmentation one per item of SegmentSequence, every other image the declared NumberOfOpticalPaths or, when that is absent,
+one per item of OpticalPathSequence -/
+theorem tiledChannels_spec (tf : TiledFull) :
+    (Gen.segmentationSopClasses.contains tf.source.sopClass = true → tf.source.segmentationType = "LABELMAP" → tf.channels = 1) ∧
+    (Gen.segmentationSopClasses.contains tf.source.sopClass = true → tf.source.segmentationType ≠ "LABELMAP" → tf.channels = tf.source.segments) ∧
+    (Gen.segmentationSopClasses.contains tf.source.sopClass = false → ∀ n, tf.source.declaredPaths = some n → tf.channels = n) ∧
+    (Gen.segmentationSopClasses.contains tf.source.sopClass = false → tf.source.declaredPaths = none → tf.channels = tf.source.pathItems) ∧
+    (∀ c ∈ Gen.segmentationSopClasses, c ∈ Gen.tiledAllowedSopClasses) := by
+  refine ⟨fun h1 h2 => ?_, fun h1 h2 => ?_, fun h1 n h2 => ?_, fun h1 h2 => ?_, by decide⟩ <;>
+    simp only [TiledFull.channels, Gen.tiledChannelCount, h1, h2, if_true, if_false, Bool.false_eq_true, Option.getD_some, Option.getD_none]
 
 end HdVerif.Affine
